@@ -6,6 +6,14 @@ CONSTANTS
  SyncWrites = TRUE
  Spill = FALSE
  MaxHist = 0
+ Keys = {1,2}
+ NBuckets = 1
+ VCap = 0
+ MaxGC = 0
+ MaxCrash = 1
+ FlushWorkers = 1
+ GcSync = TRUE
+ GcExact = TRUE
 VIEW view
 INVARIANT RecordPrefix
 INVARIANT AckedDurable
